@@ -210,6 +210,11 @@ def check_poly(self, first, a, k, r, mm):
     P = _arr(r)
     if x.ndim != 1 or not np.all(np.isfinite(x)) or len(np.unique(x)) <= d:
         return
+    if not raw and float(np.max(np.abs(x))) > 1e4 * float(np.std(x)):
+        # an offset that dwarfs the spread, raised to the d-th power in double precision: the recurrence
+        # cannot be orthonormal to the stated tolerance for numerical reasons alone
+        mm.note("poly-ill-conditioned-not-judged")
+        return
     if P.ndim != 2 or P.shape != (x.shape[0], d):
         _viol("poly-orthonormal", f"poly(degree={d}, raw={raw}) returned shape {P.shape}", "poly-shape")
         return
